@@ -72,9 +72,12 @@ scalar("C12", "all triples (stored value, width, amount) with stored value and t
 HOOK_COMMITS = []
 
 ENGINES = [
-    {"name": "E-enum", "path": "engine/vh.h + checks/*.c", "serves_properties": ["C01", "C02", "C03", "C04", "C05", "C06", "C12", "C13", "C14", "C16"],
+    {"name": "E-enum", "path": "engine/vh.h + checks/*.c", "serves_properties": ["C01", "C02", "C03", "C04", "C05", "C06", "C07", "C09", "C10", "C11", "C12", "C13", "C14", "C16"],
      "kind_free_text": "stateless exhaustive enumeration of explicit finite input alphabets on the real code, guard-page "
                        "sandbox, reference-encoder / reference-model oracles"},
+    {"name": "E-fault", "path": "checks/c18.c + engine/vmalloc.c", "serves_properties": ["C18"],
+     "kind_free_text": "deviation-bounded enumeration of environment answers: the k-th allocation of a call fails, for every k "
+                       "(and every pair), through a link-time interposed allocator with leak / redzone oracles"},
     {"name": "E-bfs", "path": "checks/bitmap_bfs.c", "serves_properties": ["C08"],
      "kind_free_text": "explicit-state breadth-first search over operation histories of the real object, state "
                        "deduplication on a canonical key, reference-model comparison after every transition"},
@@ -237,4 +240,26 @@ CHECKS["C07"] = dict(
                 "EncodeAuto error <= requested error decomposed the same way; decoder consumes exactly the encoder's bytes from an "
                 "exact-size guard copy; length <= varintFloatMaxEncodedSize",
     assumptions=["arrays longer than 64 doubles are not enumerated"],
+)
+
+CHECKS["C18"] = dict(
+    name="c18", harness=["checks/c18.c", "engine/vmalloc.c"], wrap_malloc=True, engine="E-fault",
+    libs=["varintDict.c", "varintPFOR.c", "varintFloat.c", "varintAdaptive.c", "varintBitmap.c", "varintTagged.c",
+          "varintExternal.c", "varintDelta.c", "varintFOR.c"],
+    configs={"quick": ["pinned"], "thorough": ["pinned", "debug"]},
+    shards={"pinned": 16, "debug": 16},
+    deadline={"quick": 150, "thorough": 2400},
+    rule="~190 scenarios (every allocating API of dictionary, patched frame-of-reference, float, adaptive and bitmap on inputs "
+         "chosen to reach every allocation site: <=16 and >16 dictionary entries, 0 and >0 PFOR exceptions, exact and sampled "
+         "uniqueness, every forced adaptive encoding and its decoder, bitmap create/clone/add/remove/ranges/bulk/decode on array, "
+         "dense and run containers at both sides of 4096, set algebra on every pair of container kinds); for each scenario the "
+         "fault-free allocation count N is measured and every k <= N is explored with the k-th allocation failing (bound 1; "
+         "sequences longer than 300 identical insertions are thinned), thorough adds every pair k1 < k2 <= 41 (bound 2); class = "
+         "(API, scenario input)",
+    explanation="E-fault: exhaustive single (and double) allocation-failure injection through the interposed allocator; every "
+                "block comes from a per-execution arena so the live set after the documented frees is the leak oracle; returned "
+                "encodings are decoded fault-free and compared with the input, bitmaps observed completely and compared with a "
+                "reference set (pre- or post-state), then driven through a follow-up sequence",
+    technique="exhaustive fault enumeration (every k-th allocation fails, bound 1 and 2) on the real code with reference-model oracle",
+    assumptions=["allocation is the only fault source the library has", "CountUnique/Analyze are documented as approximate: only sanity is demanded of them under faults"],
 )
